@@ -618,26 +618,56 @@ func (c *Ctx) mulTerms(so smt.Sort, x, y *smt.Term) *smt.Term {
 	}
 }
 
-func (c *Ctx) matMul(fn *ssa.Function, a []Value) Value {
-	c.E.Stubs["tensor.MatMul"]++
+func (c *Ctx) matMul(fn *ssa.Function, a []Value) Value { return c.matMulOrDot(fn, a, false) }
+
+// matMulOrDot: tensor.MatMul (matrices) and tensor.Dot (vector/matrix combinations). gorgonia's Dot computes
+// vector x matrix by transposing its matrix operand IN PLACE for the duration of the call (b.T(); defer b.UT()):
+// that header write is reported to the frame monitor.
+func (c *Ctx) matMulOrDot(fn *ssa.Function, a []Value, dot bool) Value {
+	name := "MatMul"
+	if dot {
+		name = "Dot"
+	}
+	c.E.Stubs["tensor."+name]++
 	x, y := c.asShadow(a[0]), c.asShadow(a[1])
 	if x == nil || y == nil {
-		panic(c.goPanic("MatMul with nil operand"))
+		panic(c.goPanic(name + " with nil operand"))
 	}
 	fo := c.funcOpts(a[2])
 	var res tensor.Tensor
 	var err error
-	if p := c.nativeCall("MatMul", func() { res, err = tensor.MatMul(x.twin, y.twin, fo.native...) }); p != nil {
+	if p := c.nativeCall(name, func() {
+		if dot {
+			res, err = tensor.Dot(x.twin, y.twin, fo.native...)
+		} else {
+			res, err = tensor.MatMul(x.twin, y.twin, fo.native...)
+		}
+	}); p != nil {
 		panic(p)
 	}
 	if err != nil {
 		return c.retTensorErr(nil, err, fn.Signature)
 	}
 	xs, ys := x.ids.Shape(), y.ids.Shape()
-	if len(xs) != 2 || len(ys) != 2 || xs[1] != ys[0] {
-		panic(c.abort("MatMul accepted shapes %v x %v: outside the model", xs, ys))
+	var m, k, n int
+	isVec := func(s tensor.Shape) bool { return len(s) == 1 || len(s) == 2 && (s[0] == 1 || s[1] == 1) }
+	switch {
+	case dot && len(xs) == 2 && isVec(xs) && len(ys) == 2 && !isVec(ys) && xs.TotalSize() == ys[0]:
+		// Shape.IsVector() also holds for (1,k) and (k,1): Dot takes the vector x matrix route for them
+		m, k, n = 1, ys[0], ys[1]
+		c.noteMetaWrite(y, "T / UT in place (tensor.Dot, vector x matrix)")
+	case len(xs) == 2 && len(ys) == 2 && xs[1] == ys[0]:
+		m, k, n = xs[0], xs[1], ys[1]
+	case dot && len(xs) == 1 && len(ys) == 2 && xs[0] == ys[0]:
+		m, k, n = 1, xs[0], ys[1]
+		c.noteMetaWrite(y, "T / UT in place (tensor.Dot, vector x matrix)")
+	case dot && len(xs) == 2 && len(ys) == 1 && xs[1] == ys[0]:
+		m, k, n = xs[0], xs[1], 1
+	case dot && len(xs) == 1 && len(ys) == 1 && xs[0] == ys[0]:
+		m, k, n = 1, xs[0], 1
+	default:
+		panic(c.abort("%s accepted shapes %v x %v: outside the model", name, xs, ys))
 	}
-	m, k, n := xs[0], xs[1], ys[1]
 	so, _ := c.elemSort(x.dt)
 	if so.IsFP() && k > 1 {
 		c.E.Assumptions["MatMul in ieee mode: dot products are summed left to right (BLAS order not modelled)"] = true
@@ -718,6 +748,7 @@ func (c *Ctx) registerArith(tab map[string]intrinsicFn) {
 		tab[P+op] = func(c *Ctx, fn *ssa.Function, a []Value) Value { return c.unaryTensorOp(op, fn, a) }
 	}
 	tab[P+"MatMul"] = func(c *Ctx, fn *ssa.Function, a []Value) Value { return c.matMul(fn, a) }
+	tab[P+"Dot"] = func(c *Ctx, fn *ssa.Function, a []Value) Value { return c.matMulOrDot(fn, a, true) }
 	tab[P+"Sum"] = func(c *Ctx, fn *ssa.Function, a []Value) Value {
 		c.E.Stubs["tensor.Sum"]++
 		s := c.asShadow(a[0])
